@@ -277,6 +277,17 @@ def run_bincount(case, rng, edges=False):
     ra1, dec1 = H.offset(rng, ra2[k], dec2[k], target / unit)
     if n1 > 2 and rng.random() < .5:
         ra1[0], dec1[0] = ra2[k[0]], dec2[k[0]]            # coincident pair: separation exactly 0
+    amax_scale = 1.0
+    if rng.random() < .3:
+        # catalogue 1 holds the same position several times in a row; with a per-point scale each entry has its own search
+        # radius (growing, shrinking or random along the run)
+        reps = rng.integers(2, 5, size=n1)
+        ra1, dec1 = np.repeat(ra1, reps), np.repeat(dec1, reps)
+        if sform == "array":
+            scale = np.repeat(scale, reps) * np.concatenate([
+                {0: np.sort, 1: lambda v: np.sort(v)[::-1], 2: lambda v: v}[int(rng.integers(0, 3))](rng.uniform(0.5, 2.0, size=kk)) for kk in reps])
+            amax_scale = 2.0
+        n1 = int(ra1.size)
     if edges and rng.random() < .5:
         # rmax := the separation of an actual pair, so that a pair sits on the last edge to within rounding (such a
         # pair is unconstrained in the counts, but it must not be counted one past the end of the counts array)
@@ -285,7 +296,7 @@ def run_bincount(case, rng, edges=False):
         sij = float(sm[i, j]) if sform == "none" else float(sm[i, j] * S.D2R * (scale if sform == "scalar" else scale[i]))
         if sij > rmin * 1.5:
             rmax = sij
-    amax_eff = (rmax / unit) * (2.0 if sform == "array" else 1.0)
+    amax_eff = (rmax / unit) * (2.0 if sform == "array" else 1.0) * amax_scale
     # bincount histograms the ids of the second set with unit bins: its cost grows with the id *range*, which spans
     # most of 8*4^depth when the set straddles an octant boundary or a pole, so the depth is kept <= 9 (2e6 ids)
     DMAX = 9
